@@ -88,6 +88,19 @@ func collisionAlphabet() []opDesc {
 	return ops
 }
 
+// deadPeerAlphabet: the two healthy clients next to a third subscriber whose socket fails every write.
+func deadPeerAlphabet() []opDesc {
+	var ops []opDesc
+	for _, k := range []string{"sub", "unsub"} {
+		for c := 0; c < 2; c++ {
+			for _, f := range []string{"a/b/", "a/", "b/a/"} {
+				ops = append(ops, opDesc{Kind: k, Client: c, Filter: f})
+			}
+		}
+	}
+	return ops
+}
+
 // ---- instance ------------------------------------------------------------------------------
 
 type workerEnv struct {
@@ -97,6 +110,7 @@ type workerEnv struct {
 	ro       string // read only
 	mode     string
 	ssidName map[string]string
+	deadPeer bool
 }
 
 func newWorkerEnv(mode string) *workerEnv {
@@ -125,6 +139,11 @@ type inst struct {
 	pending string // violation detected while applying an op
 	pwhat   string
 	hist    []opDesc
+	// dead peer (variant "-deadpeer"): a third connection Z that subscribed to a/ and a/b/ and whose socket
+	// then started failing every write while staying open (half-open connection). Z is not observed; the
+	// healthy clients must be served exactly as without it.
+	dead     *session.Client
+	deadConn *broker.Conn
 }
 
 func (w *workerEnv) newInst(ops []opDesc) *inst {
@@ -137,6 +156,19 @@ func (w *workerEnv) newInst(ops []opDesc) *inst {
 		if !in.cl[i].Connect(session.ConnectOpts{ClientID: "c" + string(rune('A'+i))}) {
 			in.fail("no-connack", "CONNECT was not acknowledged")
 		}
+	}
+	if w.deadPeer {
+		in.dead = session.NewClient("Z", func(c net.Conn) { in.deadConn = w.env.Svc.VerifAttach(c) })
+		ok := in.dead.Connect(session.ConnectOpts{ClientID: "cZ"})
+		for _, f := range []string{"a/", "a/b/", "b/"} {
+			_, acked := in.dead.Subscribe(w.rw + "/" + f)
+			ok = ok && acked
+		}
+		if !ok {
+			in.fail("no-suback", "the third client could not subscribe")
+		}
+		in.dead.Drain()
+		in.dead.Conn.FailWrites()
 	}
 	return in
 }
@@ -417,6 +449,9 @@ func (in *inst) Key() string {
 	for i := 0; i < 2; i++ {
 		id[in.conn[i].ID()] = string(rune('A' + i))
 	}
+	if in.deadConn != nil {
+		id[in.deadConn.ID()] = "Z"
+	}
 	var ps []string
 	for _, p := range pairs {
 		n, ok := in.w.ssidName[fmt.Sprint([]uint32(p.Ssid))]
@@ -451,10 +486,15 @@ func (in *inst) Close() {
 	for i := 0; i < 2; i++ {
 		in.cl[i].Abort()
 	}
+	if in.dead != nil {
+		in.dead.Abort()
+	}
 	if in.w.env.Svc.VerifTrie().Count() != 0 {
 		// something was left behind (C08's business): do not let it leak into the next path
 		in.w.env.Close()
+		dp := in.w.deadPeer
 		*in.w = *newWorkerEnv(in.w.mode)
+		in.w.deadPeer = dp
 	}
 }
 
@@ -475,6 +515,7 @@ func searchOps(c *core.Ctx, mode string, depth int, ops []opDesc, variant string
 		New: func(w int) xstate.Instance {
 			if envs[w] == nil {
 				envs[w] = newWorkerEnv(mode)
+				envs[w].deadPeer = variant == "-deadpeer"
 			}
 			return envs[w].newInst(ops)
 		}}
@@ -511,10 +552,12 @@ func run(c *core.Ctx) {
 		depth = 5
 	}
 	searchOps(c, "", depth+3, collisionAlphabet(), "-collisions")
+	searchOps(c, "", depth-1, deadPeerAlphabet(), "-deadpeer")
 	search(c, "mqtt", depth-1)
 	search(c, "", depth)
 	c.Set("alphabet", len(alphabet("")))
 	c.Set("probes_per_state", len(probes)*4+3)
+	c.Assume("fault variant: one extra subscriber (a/, a/b/, b/) whose socket fails every write while staying open; only the two healthy clients are observed")
 	c.Assume("clients act one request at a time (histories, not schedules); each request is acknowledged before the next is sent")
 	c.Assume("murmur collisions between different level names are outside the alphabet")
 }
@@ -531,6 +574,10 @@ func replay(c *core.Ctx, raw json.RawMessage) {
 	al := alphabet(cs.Mode)
 	if cs.Variant == "-collisions" {
 		al = collisionAlphabet()
+	}
+	if cs.Variant == "-deadpeer" {
+		al = deadPeerAlphabet()
+		w.deadPeer = true
 	}
 	in := w.newInst(al)
 	for _, o := range cs.Ops {
